@@ -554,7 +554,7 @@ fn main() {
         std::process::exit(r.finish());
     }
 
-    let n_hist = args.n(400, 12_000);
+    let n_hist = args.n(400, 8_000);
     let n_multi = args.n(100, 300);
     r.set("histories", json!(n_hist));
     r.set("multi_fault_plans_per_history", json!(n_multi));
